@@ -1012,3 +1012,60 @@ func init() {
 	tokModes["measure"] = "int"
 	tokModes["centroid"] = "int"
 }
+
+// case {polys: [[[ [x,y] exact ...] ring] polygon], l}: Area() and Length() of the MultiPolygon built from the
+// exact coordinates, of its polygons and of the first ring as a LinearRing; results exact.
+func measureXHandler(raw json.RawMessage) map[string]any {
+	var c struct {
+		Polys [][][]pt
+		L     string
+	}
+	must(json.Unmarshal(raw, &c))
+	layout := layoutOf(c.L)
+	stride := layout.Stride()
+	mp := geom.NewMultiPolygon(layout)
+	var xs [][][][]string
+	parts := []string{}
+	for pi, p := range c.Polys {
+		var rings [][]geom.Coord
+		var xr [][][]string
+		for ri, r := range p {
+			var ring []geom.Coord
+			var xring [][]string
+			for i, q := range r {
+				co := q.coord()
+				full := append(geom.Coord{}, co[:2]...)
+				for k := 2; k < stride; k++ {
+					full = append(full, float64(7*k+i+ri+pi)*1e150)
+				}
+				ring = append(ring, full)
+				xring = append(xring, exactStrs(co[:2]))
+			}
+			rings = append(rings, ring)
+			xr = append(xr, xring)
+		}
+		pg := geom.NewPolygon(layout).MustSetCoords(rings)
+		if err := mp.Push(pg); err != nil {
+			panic("harness: " + err.Error())
+		}
+		xs = append(xs, xr)
+		a, msg := guardF(pg.Area)
+		if msg != "" {
+			parts = append(parts, "panic")
+		} else {
+			parts = append(parts, exactStr(a))
+		}
+	}
+	out := map[string]any{"x": xs, "parts": parts}
+	a, msg := guardF(mp.Area)
+	out["area"] = exactStr(a)
+	if msg != "" {
+		out["area"] = "panic"
+	}
+	return out
+}
+
+func init() {
+	handlers["measurex"] = measureXHandler
+	tokModes["measurex"] = "int"
+}
